@@ -83,6 +83,11 @@ func c06Forms() []boolForm {
 		{Name: "fn.nonbool", Src: "Patient.name.first()", Val: tT, NonBoo: true},
 		{Name: "fn.multi", Src: "Patient.name.given", Val: tMulti},
 		{Name: "fn.first.false", Src: "(false).first()", Val: tF},
+		// the System value of a FHIR boolean, read with the value step
+		{Name: "elemvalue.true", Src: "Patient.active.value", Val: tT},
+		{Name: "elemvalue.false", Src: "%pf.active.value", Val: tF},
+		{Name: "elemvalue.empty", Src: "%pn.active.value", Val: tE},
+		{Name: "choicevalue.false", Src: "Patient.deceased.value", Val: tF},
 	}
 }
 
@@ -421,6 +426,21 @@ func init() {
 						law("demorgan-and", "("+A+" and "+Bb+").not()", A+".not() or "+Bb+".not()")
 						law("demorgan-or", "("+A+" or "+Bb+").not()", A+".not() and "+Bb+".not()")
 						law("implies", A+" implies "+Bb, A+".not() or "+Bb)
+						// the same symmetry when the expression is compiled with Permissive (choice elements stay wrapped there, a wrapped
+						// Boolean is a non-Boolean singleton - whatever an operand is worth, it is worth the same on either side)
+						for _, op := range []string{"and", "or", "xor"} {
+							l, rr := A+" "+op+" "+Bb, Bb+" "+op+" "+A
+							gl := obs3(lib.Run(l, input(), c06Env(), compopts.Permissive()))
+							gr := obs3(lib.Run(rr, input(), c06Env(), compopts.Permissive()))
+							r.Eval()
+							r.Eval()
+							r.State("law|permissive-commutative-" + op)
+							r.Nontrivial("permissive", l, gl, gr)
+							if gl != gr {
+								r.Fail(fmt.Sprintf("law|permissive-commutative-%s|%s(%s)x%s(%s)|%s!=%s", op, a.Val, srcKind(a), b.Val, srcKind(b), normGot(gl), normGot(gr)),
+									core.W{"lhs": l, "rhs": rr, "lhs_result": gl, "rhs_result": gr, "compile_option": "Permissive"})
+							}
+						}
 					}
 				}},
 				{Name: "custom-fn-source", N: 3, Note: "operands produced by a user-registered function", Run: func(i int, r *core.Rec) {
